@@ -93,13 +93,28 @@ LongCases(dt) ==
    \A dims \in {<<520>>, <<2, 300>>} \cup (IF dt \in {"f32", "i64", "u8"} THEN {<<40003>>} ELSE {}), enc \in {"raw", "typed"} :
       /\ P(CaseOf(Proto(dt, dims, enc, Size(dims), 0, <<>>, 0), <<dt, enc, "long_payload", "exact">>))
       /\ P(CaseOf(Proto(dt, dims, enc, Size(dims) - 1, 0, <<>>, 0), <<dt, enc, "long_payload", "elem_short">>))
+\* a graph holds many weights: each is decoded or refused on its own, and one refusal (or five, or seventeen) refuses the model -
+\* the load returns with an error however many of the weights are malformed, and with the weights when none is
+GraphCases(dt) ==
+   LET good(k) == Proto(dt, <<1 + (k % 3)>>, IF k % 2 = 0 THEN "raw" ELSE "typed", 1 + (k % 3), k, <<>>, 0)
+       short(k) == Proto(dt, <<2 + (k % 3)>>, IF k % 2 = 0 THEN "raw" ELSE "typed", 1 + (k % 3), k, <<>>, 0)
+       LoadCase(ps, expect, feat) ==
+          [prop |-> "C12", fam |-> "graph", kind |-> "load", op |-> "", attrs |-> <<>>, inputs |-> <<>>, nout |-> 0, allowed |-> NoCrash, cmp |-> "num", known |-> <<>>,
+           feat |-> <<dt, "graph_of_weights", expect>> \o feat,
+           x |-> [opsets |-> <<[domain |-> "", version |-> 13, w |-> 0]>>, inits |-> [i \in 1..Len(ps) |-> [name |-> "w" \o ToString(i), p |-> ps[i]]], nograph |-> FALSE,
+                  nodes |-> <<[op |-> "Relu", attrs |-> <<>>, ins |-> <<"x">>, outs |-> <<"y">>]>>, perturb |-> "none", expect |-> expect, errc |-> <<>>]]
+   IN \A m \in {2, 5, 6, 9, 17} :
+         /\ P(LoadCase([i \in 1..m |-> good(i)], "ok", <<"all_good", "weights_" \o ToString(m)>>))
+         /\ P(LoadCase([i \in 1..m |-> short(i)], "error", <<"all_malformed", "weights_" \o ToString(m)>>))
+         /\ P(LoadCase([i \in 1..(2 * m) |-> IF i % 2 = 0 THEN short(i) ELSE good(i)], "error", <<"every_other_malformed", "weights_" \o ToString(2 * m)>>))
+         /\ P(LoadCase([i \in 1..m |-> IF i = m THEN short(i) ELSE good(i)], "error", <<"last_malformed", "weights_" \o ToString(m)>>))
 Init == \/ st \in [fam : {"types"}, dt : Types, dims : {s \in Shapes : Len(s) <= MaxRank}, done : {FALSE}]
         \/ st \in [fam : {"long"}, dt : Types, done : {FALSE}]
         \/ st \in [fam : {"other"}, code : OtherCodes, done : {FALSE}]
         \/ st \in [fam : {"wrongfield"}, dt : Types, done : {FALSE}]
 Emit == /\ ~st.done
         /\ CASE st.fam = "types" -> Cases(st.dt, st.dims)
-             [] st.fam = "long" -> LongCases(st.dt)
+             [] st.fam = "long" -> LongCases(st.dt) /\ GraphCases(st.dt)
              [] st.fam = "other" -> OtherCases(st.code)
              [] st.fam = "wrongfield" -> WrongField(st.dt)
         /\ st' = [st EXCEPT !.done = TRUE]
